@@ -1,6 +1,6 @@
 #!/bin/sh
 # usage: tools/ti.sh file.rb [flags]   (runs the cached guard-off ti in a scratch dir with the shipped config)
-B=$(dirname $(ls -t /verif/.build/*/ti | head -1))/
+B=$(cd /verif && python3-vt -m pv.build /repo 2>/dev/null | tail -1)/
 mkdir -p /tmp/sc && cd /tmp/sc && ln -sfn /repo/test/.ti-config .ti-config
 f=$1; shift
 cp "$f" /tmp/sc/t.rb 2>/dev/null
